@@ -19,8 +19,9 @@ def build(P):
     _c = _H.handle_terminal_state_contract()
     P.verify(_c.key, _c, tags=("C02",), timeout=30)
     P.native("expired-backstop", "natives.c02:expired_backstop", kind="bounded", clause="C02:",
-             bound="one scenario: Parallel with two stuck task branches past TimeoutSeconds, three heartbeat back-stop rounds; the "
-                   "execution must end exactly once (real StateEngine.heartbeat / check_for_expired_branch_results / end_execution)")
+             bound="two scenarios: Parallel with two stuck task branches past TimeoutSeconds, and the same with one branch's start "
+                   "event lost for good (its slot can never be filled, so the join state survives the first round); three heartbeat "
+                   "back-stop rounds; the execution must end exactly once (real StateEngine.heartbeat / check_for_expired_branch_results / end_execution)")
     P.explanation = ("Per-call obligations on the real start_execution / end_execution (STANDARD): exactly one RUNNING "
                      "notification at start with the RUNNING record shape; at the end exactly one terminal notification, "
                      "of the stored record, after the terminal history event and the parent-task completion; stopDate set, "
